@@ -47,6 +47,18 @@ def sorted_events(I, args, kwargs):
 REGISTRY["builtin:sorted"] = sorted_events
 
 
+def sort_in_place(I, o, args, kwargs):
+    """list.sort() on a list of events: same TRUSTED model as sorted(), applied to the object itself"""
+    out = sorted_events(I, [o], kwargs)
+    p, q = I.heap[o.oid], I.heap[out.oid]
+    p["at"], p["len"] = q["at"], q["len"]
+    I.wrote(o.oid, "items")
+    return None
+
+
+REGISTRY["seqmethod:sort"] = sort_in_place
+
+
 @register
 class StateReset(Contract):
     """ASSUMED: IState.reset only rewires the state object (exchange, action space, broker) and raises nothing"""
